@@ -585,3 +585,55 @@ theorem iter_objEnd {st : LoopSt} {sn : Option (List UInt8)} {oa od : Nat} (hD :
     rfl
 
 end Binson
+
+namespace Binson
+
+/-- the level once a field name has been read -/
+def nameLevel (l : Level) (span : Span) : Level := { l with name := some span, flags := .expValue }
+
+/-- the level once an array has been opened in it -/
+def arrInnerLevel (l : Level) : Level := { l with ctype := .array, flags := .arr1, ad := l.ad + 1 }
+
+theorem iter_arrBegin' {st : LoopSt} {sn : Option (List UInt8)} {oa od : Nat} (hD : Deep st oa od)
+    (hcl : classify st.p st.bc = ⟨.arrBegin, ⟨st.p.used, 1⟩, st.bc,
+      st.p.setLvl st.p.lvlIdx { st.p.getLvl st.p.lvlIdx with ctype := .array }⟩)
+    (hlt : st.p.used < st.p.size) (hctx : ValCtx (st.p.getLvl st.p.lvlIdx)) (had : (st.p.getLvl st.p.lvlIdx).ad < 255) :
+    ∃ st', iter st sn oa od = (st', .cont) ∧ Shape st'.p ∧ st'.p.err = .none ∧ st'.scan = st.scan ∧
+      st'.p.used = st.p.used + 1 ∧ st'.p.depth = st.p.depth ∧ st.p.Frame st'.p ∧
+      (∀ i, st'.p.getLvl i = if i = st.p.lvlIdx then arrInnerLevel (st.p.getLvl st.p.lvlIdx) else st.p.getLvl i) ∧
+      st'.ev = (.arrBegin, arrInnerLevel (st.p.getLvl st.p.lvlIdx)) :: st.ev :=
+  iter_arrBegin hD hcl hlt hctx had
+
+/-- a field name below the originating level, relational form -/
+theorem iter_fieldName' {st : LoopSt} {sn : Option (List UInt8)} {oa od : Nat} (hD : Deep st oa od)
+    (span : Span) (bc : Nat) (q : Parser) (hq : q = { st.p with used := st.p.used + bc })
+    (hcl : classify st.p st.bc = ⟨.string, span, bc, q⟩)
+    (hfit : st.p.used + bc ≤ st.p.size) (hsp : span.off + span.len ≤ st.p.size)
+    (hf : (st.p.getLvl st.p.lvlIdx).flags = .expField)
+    (hord : ∀ pn, (st.p.getLvl st.p.lvlIdx).name = some pn → cmpBytes (st.p.slice pn) (st.p.slice span) < 0) :
+    ∃ st', iter st sn oa od = (st', .cont) ∧ Shape st'.p ∧ st'.p.err = .none ∧ st'.scan = st.scan ∧
+      st'.p.used = st.p.used + bc ∧ st'.p.depth = st.p.depth ∧ st.p.Frame st'.p ∧
+      (∀ i, st'.p.getLvl i = if i = st.p.lvlIdx then nameLevel (st.p.getLvl st.p.lvlIdx) span else st.p.getLvl i) ∧
+      st'.ev = (.fieldName, nameLevel (st.p.getLvl st.p.lvlIdx) span) :: st.ev := by
+  have hit := iter_fieldName (sn := sn) hD span bc q hq hcl hfit hsp hf hord
+  have hsh := hD.shape
+  have hli := hsh.lvlIdx_lt
+  have hspl := hsh.hsp hD.err st.p.lvlIdx
+  have hqs : Shape q := by rw [hq]; exact hsh.withUsed _ hfit
+  have hli' : st.p.lvlIdx < q.levels.size := by rw [hq]; exact hli
+  have hnl : (nameLevel (st.p.getLvl st.p.lvlIdx) span).SpansOk q.size := by
+    rw [show q.size = st.p.size by rw [hq]]
+    exact ⟨fun s hs => by simp [nameLevel] at hs; subst hs; exact hsp, fun s hs => hspl.2 s hs⟩
+  obtain ⟨t1, t2, _, t4, t5, t6, t7, t8, t9, t10, t11⟩ :=
+    setLvl_ok (p0 := st.p) hqs (by rw [hq]; exact ⟨rfl, rfl, rfl, rfl, rfl⟩) (nameLevel (st.p.getLvl st.p.lvlIdx) span) hli' hnl
+  have hg : ∀ i, (q.setLvl st.p.lvlIdx (nameLevel (st.p.getLvl st.p.lvlIdx) span)).getLvl i =
+      if i = st.p.lvlIdx then nameLevel (st.p.getLvl st.p.lvlIdx) span else st.p.getLvl i := by
+    intro i; rw [getLvl_setLvl _ hli' i]; split
+    · rfl
+    · rw [hq]; rfl
+  refine ⟨_, hit, t1, ?_, rfl, ?_, ?_, t2, hg, rfl⟩
+  · exact t6.trans (by rw [hq]; exact hD.err)
+  · exact t4.trans (by rw [hq])
+  · exact t5.trans (by rw [hq])
+
+end Binson
